@@ -737,19 +737,26 @@ func (vfs *OrefaFS) RemoveAll(path string) error {
 		return nil
 	}
 
-	if child.mode.IsDir() {
-		vfs.removeAll(absPath, child)
+	if child == parent {
+		// The root directory can't be removed (and is its own parent).
+		return nil
 	}
 
-	child.remove()
+	parent.mu.Lock()
+	defer parent.mu.Unlock()
+
+	vfs.removeAll(absPath, child)
 
 	delete(parent.children, fileName)
-	delete(vfs.nodes, absPath)
 
 	return nil
 }
 
+// removeAll removes rootNode and everything below it from the index.
 func (vfs *OrefaFS) removeAll(absPath string, rootNode *node) {
+	rootNode.mu.Lock()
+	defer rootNode.mu.Unlock()
+
 	if rootNode.mode.IsDir() {
 		for fileName, nd := range rootNode.children {
 			path := absPath + string(vfs.PathSeparator()) + fileName
